@@ -120,6 +120,16 @@ class Ctx:
         return f.loc(node)
 
 
+def locals_assigned(f, pred):
+    """names of the locals of f that are assigned (plain `name = value`) a value satisfying pred(value)"""
+    out = []
+    for n in walk_no_nested(f.node):
+        if isinstance(n, ast.Assign) and len(n.targets) == 1 and isinstance(n.targets[0], ast.Name) and pred(n.value):
+            if n.targets[0].id not in out:
+                out.append(n.targets[0].id)
+    return out
+
+
 def enclosing_stmt(node):
     """the statement (or except handler / compound header) whose CFG node evaluates `node`"""
     n = node
